@@ -9,9 +9,11 @@ def run(chk):
     quick = chk.tier == "quick"
     yv = build_harness()
     # regime-shaped candle streams (volatile -> exactly flat -> volatile, zero-volume bars) on every indicator / config
-    # ChandeMomentumOscillator has an open known finding: it gets its own traces, so that it does not cut short the others'
-    files = indfam.record(chk, yv, "c12", 10 if quick else 40, 36, 140 if quick else 500, exclude=("ChandeMomentumOscillator",))
-    files += indfam.record(chk, yv, "c12", 2 if quick else 6, 6, 200 if quick else 600, only="ChandeMomentumOscillator")
+    # indicators with an open known finding get their own traces, so that the finding does not cut short the others' validation
+    special = sorted(set(k["key"].split(":")[0] for k in chk.known if k.get("status", "open") == "open" and k["key"].endswith(":range")))
+    files = indfam.record(chk, yv, "c12", 10 if quick else 40, 36, 140 if quick else 500, exclude=tuple(special))
+    for name in special:
+        files += indfam.record(chk, yv, "c12", 2 if quick else 6, 6, 200 if quick else 600, only=name, force_drop=True)
     indfam.validate(chk, files, "ranges", "range")
     # dispersion measures are never negative up to the rounding allowance: implied by the two-sided acceptance around a non-negative exact value;
     # Trace_Candle's acceptance already bounds them two-sidedly around a non-negative exact value; here the sign is asserted
